@@ -678,7 +678,7 @@ fn exec_stress(case: &Case, ex: &mut Exec) {
     let n: usize = ws.get(2).and_then(|s| s.parse().ok()).unwrap_or(2000);
     match ws.get(1).copied() {
         Some("twodrop") => {
-            let (iters, lost) = stress_twodrop(n, std::time::Duration::from_millis(2500));
+            let (iters, lost) = stress_twodrop(n, std::time::Duration::from_millis(if n <= 3000 { 800 } else { 2500 }));
             ex.out.push("done".into());
             ex.tag(if lost > 0 { "stress-lost-wake-seen" } else { "stress-lost-wake-not-seen" });
             if lost > 0 {
@@ -712,7 +712,9 @@ fn with_rt<T>(iour: bool, f: impl FnOnce(&Runtime) -> T) -> Result<T, String> {
         let mut r = r.borrow_mut();
         if r[idx].is_none() {
             let mut pb = ProactorBuilder::new();
-            pb.driver_type(if iour { DriverType::IoUring } else { DriverType::Poll }).capacity(64);
+            // one pool thread: a second blocking job is accepted only after the first has finished, which
+            // makes `pool_barrier` a real barrier
+            pb.driver_type(if iour { DriverType::IoUring } else { DriverType::Poll }).capacity(64).thread_pool_limit(1);
             let rt = compio_runtime::RuntimeBuilder::new()
                 .with_proactor(pb)
                 .build()
@@ -753,6 +755,16 @@ fn settle(rt: &Runtime, patience: Duration, mut done: impl FnMut() -> bool) -> b
         }
         std::thread::sleep(Duration::from_micros(50));
     }
+}
+
+/// wait until every blocking job handed to the (single-threaded) pool before this call has finished
+/// and its completion has been reaped by the driver
+fn pool_barrier(rt: &Runtime) {
+    let mut h = Box::pin(rt.spawn_blocking(|| ()));
+    let waker = Waker::noop();
+    let mut cx = Context::from_waker(waker);
+    settle(rt, Duration::from_secs(2), || h.as_mut().poll(&mut cx).is_ready());
+    drive(rt);
 }
 
 // ---------------------------------------------------------------------------------------------
@@ -803,9 +815,9 @@ impl Obj {
     fn start_op(&self) -> IoFut {
         use compio_io::{AsyncRead, AsyncReadAt};
         match self.clone() {
-            Obj::File(f) => Box::pin(async move { f.read_at(Vec::with_capacity(4), 0).await.0 }),
-            Obj::Unix(f) => Box::pin(async move { (&f).read(Vec::with_capacity(4)).await.0 }),
-            Obj::Tcp(f) => Box::pin(async move { (&f).read(Vec::with_capacity(4)).await.0 }),
+            Obj::File(f) => Box::pin(async move { f.read_at(Vec::with_capacity(1), 0).await.0 }),
+            Obj::Unix(f) => Box::pin(async move { (&f).read(Vec::with_capacity(1)).await.0 }),
+            Obj::Tcp(f) => Box::pin(async move { (&f).read(Vec::with_capacity(1)).await.0 }),
         }
     }
 }
@@ -819,7 +831,7 @@ enum Peer {
 enum RActor {
     Handle(Obj),
     Helper,
-    Op { fut: IoFut, waker: Waker },
+    Op { fut: IoFut, waker: Waker, fed: bool },
     Closer { fut: Option<CloseFut>, polled: bool, parked: bool, wakes_seen: usize, waker: Waker },
     Gone,
 }
@@ -835,6 +847,8 @@ struct RtWorld<'a> {
     sentinel: Option<RawFd>,
     kind: String,
     dropped_unpolled_close: bool,
+    /// references forgotten by dropping a never-polled close() future (finding F8c): they keep counting
+    leaked_refs: usize,
 }
 
 fn tcp_pair() -> (std::net::TcpStream, std::net::TcpStream) {
@@ -875,6 +889,7 @@ impl<'a> RtWorld<'a> {
             sentinel: None,
             kind: kind.to_string(),
             dropped_unpolled_close: false,
+            leaked_refs: 0,
         })
     }
 
@@ -891,6 +906,7 @@ impl<'a> RtWorld<'a> {
                 RActor::Gone => false,
             })
             .count()
+            + self.leaked_refs
     }
 
     /// observe whether the descriptor number has been closed; once seen, a sentinel keeps the number busy
@@ -954,7 +970,7 @@ impl<'a> RtWorld<'a> {
                 match fut.as_mut().poll(&mut cx) {
                     Poll::Pending => {
                         self.actors.push(RActor::Helper);
-                        self.actors.push(RActor::Op { fut, waker });
+                        self.actors.push(RActor::Op { fut, waker, fed: false });
                     }
                     Poll::Ready(res) => {
                         // completed synchronously: both clones are gone again
@@ -968,18 +984,29 @@ impl<'a> RtWorld<'a> {
                 if !matches!(self.actors[id], RActor::Op { .. }) {
                     return None;
                 }
+                // one byte for every operation in flight that has not been fed yet (each reads at most one)
+                let mut unfed = 0;
+                for a in self.actors.iter_mut() {
+                    if let RActor::Op { fed, .. } = a {
+                        if !*fed {
+                            *fed = true;
+                            unfed += 1;
+                        }
+                    }
+                }
+                let bytes = vec![b'x'; unfed];
                 match &mut self.peer {
                     Peer::Unix(p) => {
                         use std::io::Write;
-                        p.write_all(b"x").unwrap();
+                        p.write_all(&bytes).unwrap();
                     }
                     Peer::Tcp(p) => {
                         use std::io::Write;
-                        p.write_all(b"x").unwrap();
+                        p.write_all(&bytes).unwrap();
                     }
                     Peer::None => {}
                 }
-                let RActor::Op { mut fut, waker } = std::mem::replace(&mut self.actors[id], RActor::Gone) else {
+                let RActor::Op { mut fut, waker, .. } = std::mem::replace(&mut self.actors[id], RActor::Gone) else {
                     unreachable!()
                 };
                 self.actors[id - 1] = RActor::Gone;
@@ -1090,12 +1117,14 @@ impl<'a> RtWorld<'a> {
                 if fut.is_none() {
                     return None;
                 }
-                if !*polled {
-                    self.dropped_unpolled_close = true;
-                }
+                let unpolled = !*polled;
                 *fut = None;
                 *parked = false;
                 rawish = true;
+                if unpolled {
+                    self.dropped_unpolled_close = true;
+                    self.leaked_refs += 1;
+                }
             }
             _ => return None,
         }
@@ -1129,6 +1158,9 @@ impl<'a> RtWorld<'a> {
     }
 
     fn finish(mut self, ex: &mut Exec) {
+        if self.actors.iter().any(|a| matches!(a, RActor::Closer { fut: Some(_), polled: false, .. })) {
+            self.dropped_unpolled_close = true;
+        }
         self.actors.clear();
         let rt = self.rt;
         let raw = self.raw;
@@ -1374,9 +1406,8 @@ impl<'a> ProdWorld<'a> {
                 if alive && blocking_in_flight {
                     settle(self.rt, Duration::from_secs(2), || log.lock().unwrap().len() > w0);
                 } else if blocking_in_flight {
-                    // cancelled while a pool thread may still run it: give it time, then reap
-                    std::thread::sleep(Duration::from_millis(3));
-                    settle(self.rt, Duration::from_millis(1), || false);
+                    // cancelled while the pool thread may still run it: wait for the pool, then reap
+                    pool_barrier(self.rt);
                 } else {
                     settle(self.rt, Duration::from_micros(400), || false);
                 }
@@ -1406,7 +1437,7 @@ impl<'a> ProdWorld<'a> {
         self.peers.clear();
         self.listener = None;
         if cancelled_blocking {
-            std::thread::sleep(Duration::from_millis(3));
+            pool_barrier(self.rt);
         }
         let base = self.baseline.clone();
         let ok = settle(self.rt, Duration::from_millis(300), || open_fds() == base);
@@ -1429,7 +1460,7 @@ fn exec_prod(case: &Case, iour: bool, kind: &str, ex: &mut Exec) {
     let r = with_rt(iour, |rt| {
         // let stragglers of earlier cases finish
         settle(rt, Duration::from_micros(200), || false);
-        let Some(mut w) = ProdWorld::new(rt, kind) else {
+        let Some(w) = (if kind == "multi" && !iour { None } else { ProdWorld::new(rt, kind) }) else {
             for _ in &case.lines {
                 ex.out.push("bad-op".into());
             }
@@ -1437,13 +1468,17 @@ fn exec_prod(case: &Case, iour: bool, kind: &str, ex: &mut Exec) {
         };
         ex.out.push("ok".into());
         let mut kinds = vec![];
-        let n = case.lines.len();
-        let mut ended = false;
-        for (i, l) in case.lines[1..].iter().enumerate() {
+        let mut world = Some(w);
+        for l in case.lines[1..].iter() {
             let ws: Vec<&str> = l.split_whitespace().collect();
-            if ws == ["end"] && i + 2 == n {
-                ended = true;
-                break;
+            let Some(w) = world.as_mut() else {
+                ex.out.push("bad-op".into());
+                continue;
+            };
+            if ws == ["end"] {
+                let e = world.take().unwrap().end(ex);
+                ex.out.push(e);
+                continue;
             }
             match w.event(&ws, ex) {
                 Some(o) => {
@@ -1453,9 +1488,8 @@ fn exec_prod(case: &Case, iour: bool, kind: &str, ex: &mut Exec) {
                 None => ex.out.push("rej".into()),
             }
         }
-        let e = w.end(ex);
-        if ended {
-            ex.out.push(e);
+        if let Some(w) = world.take() {
+            w.end(ex);
         }
         ex.tag(format!("prod-{}-{}", if iour { "iour" } else { "poll" }, kind));
         ex.tag(format!("prodseq-{}", kinds.join(">")));
@@ -1467,6 +1501,104 @@ fn exec_prod(case: &Case, iour: bool, kind: &str, ex: &mut Exec) {
             ex.out.push(format!("no-runtime {e}"));
         }
     }
+}
+
+// ---------------------------------------------------------------------------------------------
+// layer `fallback`: the io_uring driver's blocking fallback for a descriptor-producing operation
+// ---------------------------------------------------------------------------------------------
+
+/// What `iour::Driver::push_blocking` + `Entry::notify` do with an operation whose opcode the kernel does
+/// not support: `call_blocking()` on a pool thread, then `set_result(&res)` on the driver thread. The two
+/// trait methods are called here directly on the real op structs (this kernel supports all three opcodes,
+/// so the driver itself never takes the path). Returns (descriptor handed to the caller is open and was
+/// created by this op, detail).
+fn fallback_prog(kind: &str) -> Option<(bool, String)> {
+    use compio_buf::IntoInner;
+    use compio_driver::{IourOpCode, op};
+    let mut pb = ProactorBuilder::new();
+    pb.driver_type(DriverType::IoUring);
+    let proactor = pb.build().ok()?;
+    let extra = proactor.default_extra();
+    match kind {
+        "socket" => {
+            let mut o = op::CreateSocket::new(libc::AF_INET, libc::SOCK_STREAM, 0);
+            let res = IourOpCode::call_blocking(&mut o, &mut ());
+            let created = *res.as_ref().ok()? as RawFd;
+            unsafe { IourOpCode::set_result(&mut o, &mut (), &res, &extra) };
+            let sock = o.into_inner();
+            let fd = sock.as_raw_fd();
+            let open = fd_is_open(fd);
+            if !open {
+                // do not let the wrapper close a number that is not ours any more
+                std::mem::forget(sock);
+            }
+            Some((open && fd == created, format!("CreateSocket: call_blocking created fd {created}; after set_result the op hands out fd {fd}, open={open}")))
+        }
+        "accept" => {
+            let l = std::net::TcpListener::bind("127.0.0.1:0").unwrap();
+            let _peer = std::net::TcpStream::connect(l.local_addr().unwrap()).unwrap();
+            let mut o = op::Accept::new(l);
+            let res = IourOpCode::call_blocking(&mut o, &mut ());
+            let created = *res.as_ref().ok()? as RawFd;
+            unsafe { IourOpCode::set_result(&mut o, &mut (), &res, &extra) };
+            let (sock, _) = o.into_inner();
+            let fd = sock.as_raw_fd();
+            let open = fd_is_open(fd);
+            if !open {
+                std::mem::forget(sock);
+            }
+            Some((open && fd == created, format!("Accept: call_blocking accepted fd {created}; after set_result the op hands out fd {fd}, open={open}")))
+        }
+        "open" => {
+            let before = open_fds();
+            let mut o = op::OpenFile::new(
+                compio_driver::op::CurrentDir,
+                std::ffi::CString::new("/proc/self/exe").unwrap(),
+                rustix_oflags_rdonly(),
+                rustix_mode_empty(),
+            );
+            let res = IourOpCode::call_blocking(&mut o, &mut ());
+            let during: Vec<RawFd> = open_fds().into_iter().filter(|fd| !before.contains(fd)).collect();
+            unsafe { IourOpCode::set_result(&mut o, &mut (), &res, &extra) };
+            let owned = o.into_inner();
+            let fd = owned.as_raw_fd();
+            let created_still_open = during.iter().all(|fd| fd_is_open(*fd));
+            let ok = during.contains(&fd) && created_still_open;
+            if !ok {
+                // the wrapper owns a descriptor the op never created (0 = stdin): keep it open
+                std::mem::forget(owned);
+            }
+            Some((ok, format!("OpenFile: call_blocking opened {during:?} and returned {res:?}; after set_result the op hands out fd {fd}; opened descriptor still open={created_still_open}")))
+        }
+        _ => None,
+    }
+}
+
+fn rustix_oflags_rdonly() -> rustix::fs::OFlags {
+    rustix::fs::OFlags::RDONLY
+}
+fn rustix_mode_empty() -> rustix::fs::Mode {
+    rustix::fs::Mode::empty()
+}
+
+fn exec_fallback(case: &Case, ex: &mut Exec) {
+    let ws: Vec<&str> = case.lines[0].split_whitespace().collect();
+    let before = open_fds();
+    match ws.get(1).and_then(|k| fallback_prog(k)) {
+        Some((own, detail)) => {
+            ex.out.push(format!("own={}", own as u8));
+            if !own {
+                ex.fail("F8d:iour-blocking-fallback-double-adopt", detail);
+            }
+        }
+        None => ex.out.push("bad-op".into()),
+    }
+    let after = open_fds();
+    if before != after {
+        ex.fail("C06:fd-balance", format!("fallback: open descriptors before {before:?} after {after:?}"));
+    }
+    ex.tag("fallback");
+    ex.nontrivial = true;
 }
 
 // ---------------------------------------------------------------------------------------------
@@ -1508,8 +1640,179 @@ fn generate(tier: &str, rng: &mut Rng) -> Vec<Case> {
     for (k, n) in [("par", 0), ("joined", 1), ("joined", 2), ("seq", 1), ("par", 1), ("par", 2), ("seq", 2)] {
         cases.push(Case { name: format!("loom-{k}-{n}"), lines: vec![format!("loom {k} {n}")] });
     }
+    // ---- rt programs: random walks over clone/drop/op/fin/cancel/close/poll/dropfut, both drivers ----
+    let n_rt = if quick { 700 } else { 12000 };
+    for i in 0..n_rt {
+        let drv = if i % 2 == 0 { "iour" } else { "poll" };
+        let kind = *rng.pick(&["file", "unix", "tcp", "unix"]);
+        let mut sh = ShadowRt::new();
+        let mut lines = vec![format!("rt {drv} {kind}")];
+        let len = rng.range(3, 12);
+        for _ in 0..len {
+            let evs = sh.applicable();
+            let e = if evs.is_empty() || rng.chance(1, 16) {
+                let k = *rng.pick(&["clone", "drop", "op", "fin", "cancel", "close", "poll", "dropfut"]);
+                format!("{k} {}", rng.below(sh.roles.len() as u64 + 1))
+            } else {
+                // closes and polls are what the property is about: bias towards them once clones exist
+                let pri: Vec<&String> =
+                    evs.iter().filter(|e| e.starts_with("close") || e.starts_with("poll") || e.starts_with("fin") || e.starts_with("cancel")).collect();
+                if !pri.is_empty() && rng.chance(1, 2) { (*rng.pick(&pri)).clone() } else { rng.pick(&evs).clone() }
+            };
+            sh.apply(&e);
+            lines.push(e);
+        }
+        cases.push(Case { name: format!("rt-{i}"), lines });
+    }
+    // hand-picked shapes (findings and their neighbours), every driver x kind
+    for drv in ["iour", "poll"] {
+        for kind in ["file", "unix", "tcp"] {
+            for (j, prog) in [
+                vec!["clone 0", "close 0", "poll 0", "close 1", "poll 1"],
+                vec!["clone 0", "close 0", "poll 0", "close 1", "dropfut 1"],
+                vec!["close 0", "dropfut 0"],
+                vec!["clone 0", "close 0", "poll 0", "drop 1", "poll 0"],
+                vec!["op 0", "close 0", "poll 0", "fin 2", "poll 0"],
+                vec!["op 0", "close 0", "poll 0", "cancel 2", "poll 0"],
+                vec!["clone 0", "op 1", "close 0", "poll 0", "drop 1", "poll 0", "fin 3", "poll 0"],
+                vec!["close 0", "poll 0"],
+                vec!["clone 0", "close 0", "poll 0", "dropfut 0", "close 1", "poll 1"],
+            ]
+            .iter()
+            .enumerate()
+            {
+                let mut lines = vec![format!("rt {drv} {kind}")];
+                lines.extend(prog.iter().map(|s| s.to_string()));
+                cases.push(Case { name: format!("rt-shape-{drv}-{kind}-{j}"), lines });
+            }
+        }
+    }
+    // ---- prod programs: every sequence over the kind's alphabet up to a depth, then `end` ----
+    for drv in ["iour", "poll"] {
+        for kind in ["accept", "multi", "open", "socket", "pipe"] {
+            if kind == "multi" && drv == "poll" {
+                continue;
+            }
+            let alpha: &[&str] = if kind == "accept" || kind == "multi" {
+                &["submit", "connect", "settle", "poll", "drop"]
+            } else {
+                &["submit", "settle", "poll", "drop"]
+            };
+            let depth = match (quick, kind) {
+                (true, "accept") | (true, "multi") => 4,
+                (true, _) => 3,
+                (false, "accept") | (false, "multi") => 6,
+                (false, _) => 5,
+            };
+            let mut seqs: Vec<Vec<String>> = vec![];
+            enum_prod(alpha, depth, &mut vec![], &mut seqs);
+            for (i, sq) in seqs.into_iter().enumerate() {
+                let mut lines = vec![format!("prod {drv} {kind}")];
+                lines.extend(sq);
+                lines.push("end".into());
+                cases.push(Case { name: format!("prod-{drv}-{kind}-{i}"), lines });
+            }
+        }
+    }
+    for k in ["socket", "accept", "open"] {
+        cases.push(Case { name: format!("fallback-{k}"), lines: vec![format!("fallback {k}")] });
+    }
+    if let Ok(only) = std::env::var("C06_ONLY") {
+        cases.retain(|c| c.name.starts_with(&only));
+        return cases;
+    }
     cases.push(Case { name: "stress-twodrop".into(), lines: vec![format!("stress twodrop {}", if quick { 3000 } else { 30000 })] });
     cases
+}
+
+/// sequences that contain `submit` exactly once, not after a `poll`/`drop` without submit (pruned: those
+/// lines are `rej` and teach nothing), no leading `settle`
+fn enum_prod(alpha: &[&str], depth: usize, cur: &mut Vec<String>, out: &mut Vec<Vec<String>>) {
+    if cur.iter().any(|e| e == "submit") {
+        out.push(cur.clone());
+    }
+    if depth == 0 {
+        return;
+    }
+    let submitted = cur.iter().any(|e| e == "submit");
+    for a in alpha {
+        if *a == "submit" && submitted {
+            continue;
+        }
+        if !submitted && (*a == "poll" || *a == "drop" || *a == "settle") {
+            continue;
+        }
+        if *a == "connect" && cur.iter().filter(|e| *e == "connect").count() >= 2 {
+            continue;
+        }
+        if *a == "settle" && cur.last().map(|e| e == "settle").unwrap_or(false) {
+            continue;
+        }
+        cur.push(a.to_string());
+        enum_prod(alpha, depth - 1, cur, out);
+        cur.pop();
+    }
+}
+
+/// generator-side shadow of the rt layer
+#[derive(Clone)]
+struct ShadowRt {
+    roles: Vec<u8>, // 0 handle, 1 helper, 2 op, 3 closer with future, 4 gone
+}
+
+impl ShadowRt {
+    fn new() -> Self {
+        ShadowRt { roles: vec![0] }
+    }
+
+    fn applicable(&self) -> Vec<String> {
+        let mut v = vec![];
+        for (i, r) in self.roles.iter().enumerate() {
+            match r {
+                0 => {
+                    if self.roles.len() < 8 {
+                        v.push(format!("clone {i}"));
+                        v.push(format!("op {i}"));
+                    }
+                    v.push(format!("drop {i}"));
+                    v.push(format!("close {i}"));
+                }
+                2 => {
+                    v.push(format!("fin {i}"));
+                    v.push(format!("cancel {i}"));
+                }
+                3 => {
+                    v.push(format!("poll {i}"));
+                    v.push(format!("dropfut {i}"));
+                }
+                _ => {}
+            }
+        }
+        v
+    }
+
+    fn apply(&mut self, e: &str) {
+        let w: Vec<&str> = e.split_whitespace().collect();
+        let Ok(id) = w[1].parse::<usize>() else { return };
+        if id >= self.roles.len() {
+            return;
+        }
+        match (w[0], self.roles[id]) {
+            ("clone", 0) => self.roles.push(0),
+            ("op", 0) => {
+                self.roles.push(1);
+                self.roles.push(2);
+            }
+            ("drop", 0) => self.roles[id] = 4,
+            ("fin", 2) | ("cancel", 2) => {
+                self.roles[id] = 4;
+                self.roles[id - 1] = 4;
+            }
+            ("close", 0) => self.roles[id] = 3,
+            ("dropfut", 3) => self.roles[id] = 4,
+            _ => {}
+        }
+    }
 }
 
 /// generator-side shadow: which events apply (mirrors ownership in Rust: a moved value cannot be used)
@@ -1594,12 +1897,21 @@ fn enumerate(sh: &ShadowW, depth: usize, cur: &mut Vec<String>, out: &mut Vec<Ve
 
 fn exec(case: &Case) -> Exec {
     let mut ex = Exec::new();
+    if std::env::var_os("C06_TRACE").is_some() {
+        eprintln!("#case {}\n{}", case.name, case.lines.join("\n"));
+    }
     let head: Vec<&str> = case.lines.first().map(|l| l.split_whitespace().collect()).unwrap_or_default();
     match head.as_slice() {
         ["sfd", "unsync"] => exec_sfd::<compio_driver::SharedFd<Tracked>>(case, false, &mut ex),
         ["sfd", "sync"] => exec_sfd::<fd_sync::SharedFd<Tracked>>(case, true, &mut ex),
         ["rt", d @ ("iour" | "poll"), kind] => exec_rt(case, *d == "iour", kind, &mut ex),
         ["prod", d @ ("iour" | "poll"), kind] => exec_prod(case, *d == "iour", kind, &mut ex),
+        ["fallback", ..] => {
+            exec_fallback(case, &mut ex);
+            for _ in 1..case.lines.len() {
+                ex.out.push("bad-op".into());
+            }
+        }
         ["stress", ..] => {
             exec_stress(case, &mut ex);
             for _ in 1..case.lines.len() {
